@@ -208,16 +208,26 @@ impl<'a> TypstTranslator<'a> {
         // Parse a function call
         let parse_func_call = |func: FuncCall| {
             let parse_args_ignored = |ignore_pos: bool, ignore_nameds: &[&str]| {
-                let (dead, alive): (Vec<_>, Vec<_>) = func.args().items().partition(|a| match a {
-                    Arg::Pos(_) => ignore_pos,
-                    Arg::Named(named) => ignore_nameds.contains(&named.name().as_str()),
-                    Arg::Spread(_) => false,
-                });
-
+                // Skipped arguments become unlintable, the others are translated; all of them in
+                // source order.
                 Some(
-                    dead.iter()
-                        .flat_map(|a| token!(a, TokenKind::Unlintable))
-                        .chain(parse_args(&mut alive.into_iter()))
+                    func.args()
+                        .items()
+                        .filter_map(|a| {
+                            let dead = match a {
+                                Arg::Pos(_) => ignore_pos,
+                                Arg::Named(named) => {
+                                    ignore_nameds.contains(&named.name().as_str())
+                                }
+                                Arg::Spread(_) => false,
+                            };
+
+                            if dead {
+                                token!(a, TokenKind::Unlintable)
+                            } else {
+                                parse_args(&mut std::iter::once(a))
+                            }
+                        })
                         .flatten()
                         .collect_vec(),
                 )
@@ -336,21 +346,24 @@ impl<'a> TypstTranslator<'a> {
             Expr::Let(let_binding) => merge![
                 match let_binding.kind() {
                     LetBindingKind::Normal(pattern) => self.parse_pattern(pattern, offset),
-                    LetBindingKind::Closure(ident) => self.parse_ident(ident, offset),
+                    // The name is part of the closure expression translated below.
+                    LetBindingKind::Closure(_) => None,
                 },
                 let_binding.init().and_then(|e| recurse!(e))
             ],
             Expr::DestructAssign(destruct_assignment) => {
                 recurse!(destruct_assignment.value())
             }
+            // `#set target(args) if condition`
             Expr::Set(set_rule) => merge![
                 recurse!(set_rule.target()),
-                set_rule.condition().and_then(|expr| recurse!(expr)),
-                parse_args(&mut set_rule.args().items())
+                parse_args(&mut set_rule.args().items()),
+                set_rule.condition().and_then(|expr| recurse!(expr))
             ],
+            // `#show selector: transform`
             Expr::Show(show_rule) => merge![
-                recurse!(show_rule.transform()),
-                show_rule.selector().and_then(|expr| recurse!(expr))
+                show_rule.selector().and_then(|expr| recurse!(expr)),
+                recurse!(show_rule.transform())
             ],
             Expr::Contextual(contextual) => recurse!(contextual.body()),
             Expr::Conditional(conditional) => merge![
